@@ -68,7 +68,7 @@ def matcher_text(kind, argk, vi):
         return 'trompeloeil::_'
     if kind == 'TYPEDANY':
         return {'int': 'ANY(int)', 'intref': 'ANY(int&)', 'cint': 'ANY(const int&)', 'str': 'ANY(std::string&)',
-                'uptr': 'ANY(std::unique_ptr<sim::Tracked>)', 'vec': 'ANY(const std::vector<int>&)'}[argk]
+                'uptr': 'ANY(std::unique_ptr<sim::Tracked>)', 'vec': 'ANY(const std::vector<sim::Tracked>&)'}[argk]
     if argk == 'vec':
         return {'RINC2': 'trompeloeil::range_includes(%s, %s)' % (v, v),
                 'RINC11': 'trompeloeil::range_includes(%s, %s + 1)' % (v, v),
